@@ -181,10 +181,13 @@ fn pattern(tag: u8, len: usize) -> Vec<u8> {
 }
 
 pub fn test_addr(kind: usize) -> Addr {
-    match kind % 3 {
+    // the shortest names there are make the shortest complete headers there are
+    match kind % 5 {
         0 => Addr::Domain(b"target.example.org".to_vec(), 8443),
         1 => Addr::V4([10, 1, 2, 3], 80),
-        _ => Addr::V6([0x20, 1, 0xd, 0xb8, 0, 0, 0, 0, 0, 0, 0, 0, 0, 0, 0, 1], 443),
+        2 => Addr::V6([0x20, 1, 0xd, 0xb8, 0, 0, 0, 0, 0, 0, 0, 0, 0, 0, 0, 1], 443),
+        3 => Addr::Domain(b"a".to_vec(), 22),
+        _ => Addr::Domain(b"io".to_vec(), 25),
     }
 }
 
